@@ -1149,7 +1149,14 @@ def run_case(ctx, drv, sysd, opts, sample=False):
         ctx.case((drv, json.dumps(sysd['rows'])), nontrivial=False)
         return
     finally:
-        signal.setitimer(signal.ITIMER_VIRTUAL, 0)
+        # the periodic timer may fire while it is being disarmed (or while the except clause above runs): a firing
+        # that lands here belongs to the case that just ended and must not escape as an exception
+        for _ in range(3):
+            try:
+                signal.setitimer(signal.ITIMER_VIRTUAL, 0)
+                break
+            except BudgetExceeded:
+                continue
         if ST.fired:
             ctx.count('watchdog-fired', ST.fired)
             ST.fired = 0
